@@ -178,7 +178,7 @@ Definition capture (s : state) (r : req) (k : str * str) : option obj :=
 
 (* a request served in one step from GNew (the key is computed in the store of that step) *)
 Definition atomic_cond (s : state) (hs : list ((str * str) * nat)) (r : req) : Prop :=
-  lock_key s r = None
+  (lock_key s r = None /\ is_get r = false)
   \/ exists k, lock_key s r = Some k /\ (gearly s r = true \/ (holder_of hs k = None /\ reaches_yield s r = false)).
 
 (* why a step does nothing: no such thread, nothing left to do, or (never, under the lock
@@ -227,14 +227,29 @@ Inductive gstep_spec (st : gstate) (i : nat) : gstate -> outcome -> Prop :=
       (mkGState (apply_geffect (g_store st) (hold_effect (g_store st) r cap))
                 (release (g_holders st) i)
                 (upd_nth (g_threads st) i (mkGThread rest GNew)))
-      (ODone (effect_resp (g_store st) (hold_effect (g_store st) r cap))).
+      (ODone (effect_resp (g_store st) (hold_effect (g_store st) r cap)))
+(* a GET reads the store (one call) and parks with what it read; it holds no lock *)
+| GS_fetch th r0 rest :
+    nth_error (g_threads st) i = Some th -> gt_todo th = r0 :: rest -> gt_prog th = GNew ->
+    lock_key (g_store st) (freeze (g_store st) r0) = None -> is_get (freeze (g_store st) r0) = true ->
+    gstep_spec st i
+      (mkGState (g_store st) (g_holders st)
+                (upd_nth (g_threads st) i
+                   (mkGThread (freeze (g_store st) r0 :: rest)
+                              (GRead (effect_resp (g_store st) (EHandle (freeze (g_store st) r0))))))) OAt
+(* ... and answers with it later, whatever the store has become *)
+| GS_answer th r rest rsp :
+    nth_error (g_threads st) i = Some th -> gt_todo th = r :: rest -> gt_prog th = GRead rsp ->
+    gstep_spec st i
+      (mkGState (g_store st) (release (g_holders st) i) (upd_nth (g_threads st) i (mkGThread rest GNew)))
+      (ODone rsp).
 
 Lemma gstep_spec_ok st i : gstep_spec st i (fst (gstep st i)) (snd (gstep st i)).
 Proof.
   unfold gstep.
   destruct (nth_error (g_threads st) i) as [th|] eqn:Eth; [|cbn [fst snd]; apply GS_idle; unfold idle_reason; rewrite Eth; exact I].
   destruct (gt_todo th) as [|r0 rest] eqn:Etodo; [cbn [fst snd]; apply GS_idle; unfold idle_reason; rewrite Eth, Etodo; exact I|].
-  destruct (gt_prog th) as [|cap] eqn:Eprog.
+  destruct (gt_prog th) as [|cap|ans] eqn:Eprog.
   - (* GNew *)
     set (s := g_store st). set (r := freeze s r0).
     destruct (lock_key s r) as [k|] eqn:Ek.
@@ -254,10 +269,12 @@ Proof.
               replace s' with (apply_geffect s (EHandle r)) by (cbn; rewrite Eh; reflexivity).
               replace rsp with (effect_resp s (EHandle r)) by (cbn; rewrite Eh; reflexivity).
               eapply GS_atomic; eauto. right. exists k. auto.
-    + destruct (handle s r) as [s' rsp] eqn:Eh. cbn [fst snd].
-      replace s' with (apply_geffect s (EHandle r)) by (cbn; rewrite Eh; reflexivity).
-      replace rsp with (effect_resp s (EHandle r)) by (cbn; rewrite Eh; reflexivity).
-      eapply GS_atomic; eauto. left. exact Ek.
+    + destruct (is_get r) eqn:Eget.
+      * cbn [fst snd]. eapply GS_fetch; eauto.
+      * destruct (handle s r) as [s' rsp] eqn:Eh. cbn [fst snd].
+        replace s' with (apply_geffect s (EHandle r)) by (cbn; rewrite Eh; reflexivity).
+        replace rsp with (effect_resp s (EHandle r)) by (cbn; rewrite Eh; reflexivity).
+        eapply GS_atomic; eauto. left. split; assumption.
   - (* GHold *)
     set (s := g_store st).
     assert (Hgoal : forall st' o, (st', o) =
@@ -271,6 +288,29 @@ Proof.
     destruct cap as [o|]; [|destruct (handle s _) as [s' rsp] eqn:Eh; cbn [apply_geffect effect_resp]; rewrite Eh; reflexivity].
     destruct (lock_key _) as [k|]; [reflexivity|].
     destruct (handle s _) as [s' rsp] eqn:Eh; cbn [apply_geffect effect_resp]; rewrite Eh; reflexivity.
+  - (* GRead *)
+    cbn [fst snd]. eapply GS_answer; eauto.
+Qed.
+
+(* a GET takes no lock, has nothing to freeze and changes nothing *)
+Lemma is_get_no_key s r : is_get r = true -> lock_key s r = None.
+Proof. destruct r; cbn; try discriminate; reflexivity. Qed.
+
+Lemma is_get_freeze s r : freeze s r = r \/ is_get (freeze s r) = false.
+Proof. destruct r; cbn; auto. Qed.
+
+Lemma is_get_freeze_eq s r : is_get (freeze s r) = is_get r.
+Proof. destruct r; reflexivity. Qed.
+
+Lemma is_get_freeze_id s r : is_get r = true -> freeze s r = r.
+Proof. destruct r; cbn; try discriminate; reflexivity. Qed.
+
+Lemma get_store_unchanged s r : is_get r = true -> fst (handle s r) = s.
+Proof.
+  destruct r; cbn [is_get]; try discriminate; intros _; cbn [handle].
+  - destruct (find_obj s b n); reflexivity.
+  - destruct (find_obj s b n); reflexivity.
+  - destruct (get_bucket s b); reflexivity.
 Qed.
 
 Lemma grun_cons st i rest :
@@ -288,7 +328,8 @@ Qed.
 (* ================================================================== *)
 (* 2. The lock invariant (item 1)                                       *)
 
-(* thread i is parked at its yield on a request r that locked k.  The key was computed in the store
+(* thread i is parked at its yield (GHold — a GET parked between fetch and answer, GRead, holds no
+   lock and is no holder) on a request r that locked k.  The key was computed in the store
    of the step that took the lock (GS_at), which for a resumable PUT need not be the present store
    (other PUTs of the same session may have changed the bytes held since): hence "in some store".
    For every other request the key does not depend on the store (lock_key_static). *)
@@ -377,23 +418,34 @@ Proof.
       apply release_in. auto.
 Qed.
 
+(* a thread that holds nothing is replaced by a thread that is not parked holding a lock (blocked:
+   GNew again; a GET after its fetch: GRead), the holders are as they were *)
+Lemma glock_inv_upd_nohold st i th s' v : glock_inv st -> nth_error (g_threads st) i = Some th ->
+  gt_prog th = GNew -> (forall cap, gt_prog v <> GHold cap) ->
+  glock_inv (mkGState s' (g_holders st) (upd_nth (g_threads st) i v)).
+Proof.
+  intros Hinv Hth Hprog Hv. constructor; cbn [g_holders g_threads].
+  - apply (gi_keys _ Hinv).
+  - apply (gi_thr _ Hinv).
+  - intros k' j' Hin. destruct (Nat.eq_dec j' i) as [->|Hne].
+    + exfalso. eapply not_holding_if_new; eauto. apply in_map_iff. exists (k', i). auto.
+    + rewrite holds_key_upd_other by exact Hne. apply (gi_in _ Hinv). exact Hin.
+  - intros j' th' cap Hj Hp. destruct (Nat.eq_dec j' i) as [->|Hne].
+    + rewrite (nth_error_upd_same _ _ _ _ Hth) in Hj. injection Hj as <-. exfalso. eapply Hv; eauto.
+    + rewrite nth_error_upd_other in Hj by exact Hne. eapply (gi_hold _ Hinv); eauto.
+Qed.
+
 Theorem glock_inv_step st i st' o : glock_inv st -> gstep_spec st i st' o -> glock_inv st'.
 Proof.
   intros Hinv Hstep. destruct Hstep as [|th r0 rest k j Hth Htodo Hprog Hk Hearly Hho Hji
                                          |th r0 rest k Hth Htodo Hprog Hk Hearly Hho Hry
                                          |th r0 rest Hth Htodo Hprog Hat
-                                         |th r rest cap Hth Htodo Hprog].
+                                         |th r rest cap Hth Htodo Hprog
+                                         |th r0 rest Hth Htodo Hprog Hk Hget
+                                         |th r rest rsp Hth Htodo Hprog].
   - exact Hinv.
   - (* blocked: only the head request of thread i is frozen *)
-    constructor; cbn [g_holders g_threads].
-    + apply (gi_keys _ Hinv).
-    + apply (gi_thr _ Hinv).
-    + intros k' j' Hin. destruct (Nat.eq_dec j' i) as [->|Hne].
-      * exfalso. eapply not_holding_if_new; eauto. apply in_map_iff. exists (k', i). auto.
-      * rewrite holds_key_upd_other by exact Hne. apply (gi_in _ Hinv). exact Hin.
-    + intros j' th' cap Hj Hp. destruct (Nat.eq_dec j' i) as [->|Hne].
-      * rewrite (nth_error_upd_same _ _ _ _ Hth) in Hj. injection Hj as <-. discriminate.
-      * rewrite nth_error_upd_other in Hj by exact Hne. eapply (gi_hold _ Hinv); eauto.
+    eapply glock_inv_upd_nohold; eauto. intros cap; discriminate.
   - (* the lock is taken *)
     pose proof (not_holding_if_new st i th Hinv Hth Hprog) as Hni.
     constructor; cbn [g_holders g_threads map fst snd].
@@ -412,6 +464,9 @@ Proof.
         destruct (gi_hold _ Hinv _ _ _ Hj Hp) as [r [rest' [k' [H1 H2]]]]. exists r, rest', k'. split; [exact H1|].
         right. exact H2.
   - eapply glock_inv_finish; eauto.
+  - eapply glock_inv_finish; eauto.
+  - (* a GET parks with what it read: it holds nothing *)
+    eapply glock_inv_upd_nohold; eauto. intros cap; discriminate.
   - eapply glock_inv_finish; eauto.
 Qed.
 
@@ -456,7 +511,7 @@ Theorem gstep_blocked_spec st i : glock_inv st -> snd (gstep st i) = OBlocked ->
                             (upd_nth (g_threads st) i (mkGThread (freeze (g_store st) r0 :: rest) GNew)).
 Proof.
   intros Hinv Ho. pose proof (gstep_spec_ok st i) as Hs. rewrite Ho in Hs.
-  inversion Hs as [| th r0 rest k j Hth Htodo Hprog Hk Hearly Hho Hji | | |]; subst.
+  inversion Hs as [| th r0 rest k j Hth Htodo Hprog Hk Hearly Hho Hji | | | | |]; subst.
   exists th, r0, rest, k, j. rewrite lock_key_freeze in Hk. apply holder_of_some in Hho.
   repeat split; auto. apply (gi_in _ Hinv). exact Hho.
 Qed.
@@ -474,18 +529,20 @@ Qed.
 Definition cur_req (st : gstate) (i : nat) : option (req * gprogress) :=
   match nth_error (g_threads st) i with
   | Some th => match gt_todo th with
-               | r0 :: _ => Some (match gt_prog th with GNew => freeze (g_store st) r0 | GHold _ => r0 end, gt_prog th)
+               | r0 :: _ => Some (match gt_prog th with GNew => freeze (g_store st) r0 | _ => r0 end, gt_prog th)
                | [] => None
                end
   | None => None
   end.
 
-(* the effect of the step of thread i, if it is a commit step: a GHold step, or a GNew step that
-   serves the request at once *)
+(* the effect of the step of thread i, if it is a commit step: a GHold step, a GNew step that
+   serves the request at once, or the FETCH step of a GET (the step that runs its handler: the GET
+   is linearised there; the step that answers later, from GRead, is not a commit) *)
 Definition step_effect (st : gstate) (i : nat) : option geffect :=
   match snd (gstep st i), cur_req st i with
   | ODone _, Some (r, GHold cap) => Some (hold_effect (g_store st) r cap)
   | ODone _, Some (r, GNew) => Some (EHandle r)
+  | OAt, Some (r, GNew) => if is_get r then Some (EHandle r) else None
   | _, _ => None
   end.
 
@@ -496,22 +553,38 @@ Fixpoint geffects (st : gstate) (sched : list nat) : list geffect :=
                  ++ geffects (fst (gstep st i)) rest
   end.
 
-(* a step, summarised by its effect *)
+(* a step, summarised by its effect: a commit answers at once with the response of its effect,
+   except the fetch of a GET, which parks holding that response; a step without effect leaves the
+   store alone, and if it answers it is a parked GET giving the response it holds *)
 Lemma step_effect_spec st i :
   match step_effect st i with
   | Some e => g_store (fst (gstep st i)) = apply_geffect (g_store st) e
-              /\ snd (gstep st i) = ODone (effect_resp (g_store st) e)
-  | None => g_store (fst (gstep st i)) = g_store st /\ forall rsp, snd (gstep st i) <> ODone rsp
+              /\ (snd (gstep st i) = ODone (effect_resp (g_store st) e)
+                  \/ (snd (gstep st i) = OAt /\ exists r, e = EHandle r /\ is_get r = true
+                      /\ cur_req st i = Some (r, GNew)
+                      /\ cur_req (fst (gstep st i)) i = Some (r, GRead (effect_resp (g_store st) e))))
+  | None => g_store (fst (gstep st i)) = g_store st
+            /\ forall rsp, snd (gstep st i) = ODone rsp -> exists r, cur_req st i = Some (r, GRead rsp)
   end.
 Proof.
   unfold step_effect, cur_req.
   destruct (gstep_spec_ok st i) as [|th r0 rest k j Hth Htodo Hprog Hk Hearly Hho Hji
                                          |th r0 rest k Hth Htodo Hprog Hk Hearly Hho Hry
                                          |th r0 rest Hth Htodo Hprog Hat
-                                         |th r rest cap Hth Htodo Hprog]; cbn [g_store].
-  1-3: split; [reflexivity|intros rsp; discriminate].
-  - rewrite Hth, Htodo, Hprog. split; reflexivity.
-  - rewrite Hth, Htodo, Hprog. split; reflexivity.
+                                         |th r rest cap Hth Htodo Hprog
+                                         |th r0 rest Hth Htodo Hprog Hk Hget
+                                         |th r rest rsp Hth Htodo Hprog]; cbn [g_store].
+  1-2: split; [reflexivity|intros rsp; discriminate].
+  - rewrite Hth, Htodo, Hprog. destruct (is_get (freeze (g_store st) r0)) eqn:Eg.
+    + rewrite (is_get_no_key _ _ Eg) in Hk. discriminate.
+    + split; [reflexivity|intros rsp; discriminate].
+  - rewrite Hth, Htodo, Hprog. split; [reflexivity|left; reflexivity].
+  - rewrite Hth, Htodo, Hprog. split; [reflexivity|left; reflexivity].
+  - rewrite Hth, Htodo, Hprog, Hget. split.
+    + cbn [apply_geffect]. symmetry. apply get_store_unchanged. exact Hget.
+    + right. split; [reflexivity|]. exists (freeze (g_store st) r0). split; [reflexivity|]. split; [exact Hget|].
+      split; [reflexivity|]. cbn [g_threads]. rewrite (nth_error_upd_same _ _ _ _ Hth). reflexivity.
+  - rewrite Hth, Htodo, Hprog. split; [reflexivity|]. intros rsp0 E. injection E as <-. eauto.
 Qed.
 
 Lemma gstep_hold st i th r rest cap :
@@ -527,6 +600,20 @@ Proof.
   destruct (handle s _) as [s' rsp] eqn:Eh; cbn [apply_geffect effect_resp]; rewrite Eh; reflexivity.
 Qed.
 
+Lemma gstep_read st i th r rest rsp :
+  nth_error (g_threads st) i = Some th -> gt_todo th = r :: rest -> gt_prog th = GRead rsp ->
+  gstep st i = (mkGState (g_store st) (release (g_holders st) i) (upd_nth (g_threads st) i (mkGThread rest GNew)),
+                ODone rsp).
+Proof. intros Hth Htodo Hprog. unfold gstep. rewrite Hth, Htodo, Hprog. reflexivity. Qed.
+
+Lemma step_effect_read st i th r rest rsp :
+  nth_error (g_threads st) i = Some th -> gt_todo th = r :: rest -> gt_prog th = GRead rsp ->
+  step_effect st i = None.
+Proof.
+  intros Hth Htodo Hprog. unfold step_effect, cur_req. rewrite (gstep_read _ _ _ _ _ _ Hth Htodo Hprog), Hth, Htodo, Hprog.
+  reflexivity.
+Qed.
+
 Lemma step_effect_hold st i th r rest cap :
   nth_error (g_threads st) i = Some th -> gt_todo th = r :: rest -> gt_prog th = GHold cap ->
   step_effect st i = Some (hold_effect (g_store st) r cap).
@@ -540,11 +627,12 @@ Lemma step_effect_store st i :
 Proof. pose proof (step_effect_spec st i) as H. destruct (step_effect st i); tauto. Qed.
 
 Lemma step_effect_done st i rsp : snd (gstep st i) = ODone rsp ->
-  exists e, step_effect st i = Some e /\ rsp = effect_resp (g_store st) e.
+  (exists e, step_effect st i = Some e /\ rsp = effect_resp (g_store st) e)
+  \/ (step_effect st i = None /\ exists r, cur_req st i = Some (r, GRead rsp)).
 Proof.
   intros Ho. pose proof (step_effect_spec st i) as H. destruct (step_effect st i) as [e|].
-  - exists e. split; [reflexivity|]. destruct H as [_ H]. congruence.
-  - destruct H as [_ H]. exfalso. eapply H. exact Ho.
+  - left. exists e. split; [reflexivity|]. destruct H as [_ [H|[H _]]]; congruence.
+  - right. split; [reflexivity|]. destruct H as [_ H]. apply H. exact Ho.
 Qed.
 
 Theorem gconc_effects sched : forall st,
@@ -555,7 +643,7 @@ Proof.
   destruct (step_effect st i); reflexivity.
 Qed.
 
-(* the responses, in schedule order, are the responses of the effects *)
+(* the responses given, in schedule order *)
 Definition done_resps (os : list outcome) : list resp :=
   flat_map (fun o => match o with ODone r => [r] | _ => [] end) os.
 
@@ -564,16 +652,6 @@ Fixpoint effect_resps (s : state) (es : list geffect) : list resp :=
   | [] => []
   | e :: r => effect_resp s e :: effect_resps (apply_geffect s e) r
   end.
-
-Theorem gconc_effect_resps sched : forall st,
-  done_resps (snd (grun st sched)) = effect_resps (g_store st) (geffects st sched).
-Proof.
-  induction sched as [|i rest IH]; intros st; [reflexivity|].
-  rewrite grun_cons. cbn [snd geffects done_resps flat_map]. fold (done_resps (snd (grun (fst (gstep st i)) rest))).
-  rewrite IH. pose proof (step_effect_spec st i) as H. destruct (step_effect st i) as [e|].
-  - destruct H as [H1 H2]. rewrite H1, H2. reflexivity.
-  - destruct H as [H1 H2]. rewrite H1. destruct (snd (gstep st i)); try reflexivity. exfalso. eapply H2. reflexivity.
-Qed.
 
 (* ================================================================== *)
 (* 4. Serialisability of object requests (item 3)                       *)
@@ -597,7 +675,9 @@ Proof.
   destruct Hstep as [|th r0 rest k j Hn Htodo Hprog Hk Hearly Hho Hji
                      |th r0 rest k Hn Htodo Hprog Hk Hearly Hho Hry
                      |th r0 rest Hn Htodo Hprog Hat
-                     |th r rest cap Hn Htodo Hprog]; [exact Hall|..];
+                     |th r rest cap Hn Htodo Hprog
+                  |th r0 rest Hn Htodo Hprog Hk Hget
+                  |th r rest rsp Hn Htodo Hprog]; [exact Hall|..];
     destruct (Hth _ _ _ Hn Htodo) as [H1 H2]; intros th' Hin; cbn [g_threads] in Hin;
     apply in_upd_nth in Hin; destruct Hin as [->|Hin]; cbn [gt_todo]; auto.
 Qed.
@@ -644,10 +724,12 @@ Definition is_handle_effect (e : geffect) : Prop := match e with EHandle _ => Tr
 
 Lemma step_effect_handle st i e : all_reqs not_compose st -> step_effect st i = Some e -> is_handle_effect e.
 Proof.
-  intros Hall. unfold step_effect. destruct (snd (gstep st i)); try discriminate.
-  destruct (cur_req st i) as [[q [|cap]]|] eqn:E; try discriminate; intros H; injection H as <-; [exact I|].
-  rewrite hold_effect_not_compose; [exact I|].
-  eapply (step_effect_req not_compose); eauto using not_compose_freeze.
+  intros Hall. unfold step_effect. destruct (snd (gstep st i)); try discriminate;
+  destruct (cur_req st i) as [[q [|cap|ans]]|] eqn:E; try discriminate.
+  - destruct (is_get q); [|discriminate]. intros H; injection H as <-. exact I.
+  - intros H; injection H as <-. exact I.
+  - intros H; injection H as <-. rewrite hold_effect_not_compose; [exact I|].
+    eapply (step_effect_req not_compose); eauto using not_compose_freeze.
 Qed.
 
 Lemma geffects_handle sched : forall st, all_reqs not_compose st -> Forall is_handle_effect (geffects st sched).
@@ -667,23 +749,7 @@ Proof.
   destruct (IH s1) as [H1 H2]. rewrite H1, H2. destruct (run s1 (effect_reqs r)). split; reflexivity.
 Qed.
 
-(* item 3: for programs without compose, every schedule is equivalent to the SEQUENTIAL run of
-   the frozen requests in commit order: same final store, same responses *)
-Theorem gconc_serializable_object_from st sched : all_reqs not_compose st ->
-  g_store (fst (grun st sched)) = fst (run (g_store st) (glog st sched))
-  /\ done_resps (snd (grun st sched)) = snd (run (g_store st) (glog st sched)).
-Proof.
-  intros Hall. rewrite gconc_effects, gconc_effect_resps.
-  apply handle_effects_run. apply geffects_handle. exact Hall.
-Qed.
-
-Theorem gconc_serializable_object s0 progs sched : Forall (Forall not_compose) progs ->
-  let st := init_g s0 progs in
-  g_store (fst (grun st sched)) = fst (run s0 (glog st sched))
-  /\ done_resps (snd (grun st sched)) = snd (run s0 (glog st sched)).
-Proof. intros H st. apply (gconc_serializable_object_from st sched). apply all_reqs_init. exact H. Qed.
-
-(* ---- real-time order ---- *)
+(* ---- the operations, their commits and their answers ---- *)
 
 Definition todo_len (st : gstate) (i : nat) : nat :=
   match nth_error (g_threads st) i with Some th => length (gt_todo th) | None => O end.
@@ -699,7 +765,7 @@ Fixpoint gops (st : gstate) (sched : list nat) : list (nat * nat) :=
   | i :: rest => op_of st i :: gops (fst (gstep st i)) rest
   end.
 
-(* the linearisation with the identity of each operation *)
+(* the linearisation with the identity of each operation (a GET is linearised at its fetch) *)
 Fixpoint glog_t (st : gstate) (sched : list nat) : list ((nat * nat) * req) :=
   match sched with
   | [] => []
@@ -729,8 +795,9 @@ Proof.
   - right. eapply IH. exact H.
 Qed.
 
-(* item 3, real-time order: if operation A has answered (its ODone is in s1) before the first step
-   of operation B (no step of B in s1), then A precedes B in the linearisation *)
+(* item 3, real-time order: if operation A has COMMITTED in s1 (a fortiori if it has answered in
+   s1: answered_has_committed below) before the first step of operation B (no step of B in s1),
+   then A precedes B in the linearisation *)
 Theorem gconc_real_time st s1 s2 A rA B rB :
   In (A, rA) (glog_t st s1) -> ~ In B (gops st s1) -> In (B, rB) (glog_t st (s1 ++ s2)) ->
   exists l1 l2 l3, glog_t st (s1 ++ s2) = l1 ++ (A, rA) :: l2 ++ (B, rB) :: l3.
@@ -741,7 +808,6 @@ Proof.
     exists a1, (a2 ++ b1), b2. rewrite <- !app_assoc. cbn [app]. reflexivity.
 Qed.
 
-(* every operation commits at most once: the identities in the linearisation are distinct *)
 Lemma todo_len_step st i st' o j : gstep_spec st i st' o ->
   todo_len st' j = if Nat.eqb j i then match o with ODone _ => pred (todo_len st i) | _ => todo_len st i end
                    else todo_len st j.
@@ -750,37 +816,406 @@ Proof.
   - destruct Hs as [|th r0 rest k j Hn Htodo Hprog Hk Hearly Hho Hji
                      |th r0 rest k Hn Htodo Hprog Hk Hearly Hho Hry
                      |th r0 rest Hn Htodo Hprog Hat
-                     |th r rest cap Hn Htodo Hprog]; [reflexivity|..]; cbn [g_threads];
+                     |th r rest cap Hn Htodo Hprog
+                     |th r0 rest Hn Htodo Hprog Hk Hget
+                     |th r rest rsp Hn Htodo Hprog]; [reflexivity|..]; cbn [g_threads];
       rewrite (nth_error_upd_same _ _ _ _ Hn), Hn, Htodo; reflexivity.
   - destruct Hs; cbn [g_threads]; try reflexivity; rewrite nth_error_upd_other by exact Hne; reflexivity.
 Qed.
 
 Lemma step_effect_todo st i e : step_effect st i = Some e -> (1 <= todo_len st i)%nat.
 Proof.
-  unfold step_effect, cur_req, todo_len. destruct (snd (gstep st i)); try discriminate.
+  unfold step_effect, cur_req, todo_len. destruct (snd (gstep st i)); try discriminate;
+  (destruct (nth_error (g_threads st) i) as [th|]; [|discriminate]);
+  (destruct (gt_todo th); [discriminate|]); cbn; lia.
+Qed.
+
+(* thread j is a GET parked between its fetch and its answer *)
+Definition is_reading (st : gstate) (j : nat) : Prop :=
+  exists th rsp, nth_error (g_threads st) j = Some th /\ gt_prog th = GRead rsp.
+
+(* thread (fst op) is parked on operation op holding the answer rsp *)
+Definition reading (st : gstate) (op : nat * nat) (rsp : resp) : Prop :=
+  exists th, nth_error (g_threads st) (fst op) = Some th /\ gt_prog th = GRead rsp
+             /\ length (gt_todo th) = snd op.
+
+Lemma reading_is_reading st j L rsp : reading st (j, L) rsp -> is_reading st j.
+Proof. intros [th [H1 [H2 _]]]. exists th, rsp. auto. Qed.
+
+Lemma reading_todo_len st j L rsp : reading st (j, L) rsp -> todo_len st j = L.
+Proof. intros [th [H1 [_ H3]]]. cbn [fst snd] in *. unfold todo_len. rewrite H1. exact H3. Qed.
+
+Lemma cur_req_reading st i r rsp : cur_req st i = Some (r, GRead rsp) -> reading st (op_of st i) rsp.
+Proof.
+  unfold cur_req, reading, op_of, todo_len. cbn [fst snd].
   destruct (nth_error (g_threads st) i) as [th|]; [|discriminate].
-  destruct (gt_todo th); [discriminate|]. cbn. lia.
+  destruct (gt_todo th) as [|r0 rest] eqn:E; [discriminate|]. intros H. injection H as _ H. exists th. rewrite E. auto.
+Qed.
+
+Lemma gstep_fetch st i th r0 rest :
+  nth_error (g_threads st) i = Some th -> gt_todo th = r0 :: rest -> gt_prog th = GNew ->
+  lock_key (g_store st) (freeze (g_store st) r0) = None -> is_get (freeze (g_store st) r0) = true ->
+  gstep st i = (mkGState (g_store st) (g_holders st)
+                  (upd_nth (g_threads st) i (mkGThread (freeze (g_store st) r0 :: rest)
+                     (GRead (effect_resp (g_store st) (EHandle (freeze (g_store st) r0)))))), OAt).
+Proof. intros Hth Htodo Hprog Hk Hget. unfold gstep. rewrite Hth, Htodo, Hprog. cbv zeta. rewrite Hk, Hget. reflexivity. Qed.
+
+Lemma step_effect_fetch st i th r0 rest :
+  nth_error (g_threads st) i = Some th -> gt_todo th = r0 :: rest -> gt_prog th = GNew ->
+  lock_key (g_store st) (freeze (g_store st) r0) = None -> is_get (freeze (g_store st) r0) = true ->
+  step_effect st i = Some (EHandle (freeze (g_store st) r0)).
+Proof.
+  intros Hth Htodo Hprog Hk Hget. unfold step_effect, cur_req.
+  rewrite (gstep_fetch _ _ _ _ _ Hth Htodo Hprog Hk Hget), Hth, Htodo, Hprog. cbn [snd]. rewrite Hget. reflexivity.
+Qed.
+
+Lemma gstep_empty st i th : nth_error (g_threads st) i = Some th -> gt_todo th = [] -> gstep st i = (st, OIdle).
+Proof. intros Hth Htodo. unfold gstep. rewrite Hth, Htodo. reflexivity. Qed.
+
+(* a parked reader does not commit; its step (if it has one) answers *)
+Lemma is_reading_no_effect st j : is_reading st j -> step_effect st j = None.
+Proof.
+  intros [th [rsp [Hth Hp]]]. destruct (gt_todo th) as [|r rest] eqn:Htodo.
+  - unfold step_effect, cur_req. rewrite Hth, Htodo. destruct (snd (gstep st j)); reflexivity.
+  - eapply step_effect_read; eauto.
+Qed.
+
+Lemma is_reading_answers st j : is_reading st j -> (1 <= todo_len st j)%nat -> exists rsp, snd (gstep st j) = ODone rsp.
+Proof.
+  intros [th [rsp [Hth Hp]]]. unfold todo_len. rewrite Hth. destruct (gt_todo th) as [|r rest] eqn:Htodo; [cbn; lia|].
+  intros _. exists rsp. rewrite (gstep_read _ _ _ _ _ _ Hth Htodo Hp). reflexivity.
+Qed.
+
+(* a reader in the state after a step of thread i was a reader before, or thread i has just fetched *)
+Lemma reading_step st i j L rsp : reading (fst (gstep st i)) (j, L) rsp ->
+  reading st (j, L) rsp
+  \/ (j = i /\ L = todo_len st i /\ snd (gstep st i) = OAt
+      /\ exists e, step_effect st i = Some e /\ rsp = effect_resp (g_store st) e).
+Proof.
+  intros [th' [H1 [H2 H3]]]. cbn [fst snd] in *. destruct (Nat.eq_dec j i) as [->|Hne].
+  - revert H1.
+    destruct (gstep_spec_ok st i) as [Hid|th r0 rest k j Hn Htodo Hprog Hk Hearly Hho Hji
+                     |th r0 rest k Hn Htodo Hprog Hk Hearly Hho Hry
+                     |th r0 rest Hn Htodo Hprog Hat
+                     |th r rest cap Hn Htodo Hprog
+                     |th r0 rest Hn Htodo Hprog Hk Hget
+                     |th r rest rsp0 Hn Htodo Hprog]; cbn [g_threads]; intros H1;
+      try (rewrite (nth_error_upd_same _ _ _ _ Hn) in H1; injection H1 as <-; cbn [gt_prog] in H2; discriminate).
+    + left. exists th'. auto.
+    + right. rewrite (nth_error_upd_same _ _ _ _ Hn) in H1. injection H1 as <-. cbn [gt_prog gt_todo] in H2, H3.
+      injection H2 as <-. split; [reflexivity|]. split; [unfold todo_len; rewrite Hn, Htodo; cbn [length] in *; congruence|].
+      split; [reflexivity|]. exists (EHandle (freeze (g_store st) r0)). split; [|reflexivity].
+      eapply step_effect_fetch; eauto.
+  - left. rewrite gstep_other_threads in H1 by exact Hne. exists th'. auto.
+Qed.
+
+(* the operations that commit, in commit order *)
+Fixpoint gcops (st : gstate) (sched : list nat) : list (nat * nat) :=
+  match sched with
+  | [] => []
+  | i :: rest => match step_effect st i with Some _ => [op_of st i] | None => [] end
+                 ++ gcops (fst (gstep st i)) rest
+  end.
+
+Lemma gcops_bound sched : forall st j L, In (j, L) (gcops st sched) ->
+  (1 <= L <= todo_len st j)%nat /\ (is_reading st j -> (L < todo_len st j)%nat).
+Proof.
+  induction sched as [|i rest IH]; intros st j L H; [destruct H|]. cbn [gcops] in H.
+  apply in_app_or in H. destruct H as [H|H].
+  - destruct (step_effect st i) as [e|] eqn:E; [|destruct H]. destruct H as [H|[]].
+    unfold op_of in H. injection H as <- <-. apply step_effect_todo in E as E'. split; [lia|].
+    intros Hr. rewrite (is_reading_no_effect _ _ Hr) in E. discriminate.
+  - apply IH in H. destruct H as [Hb Hs]. rewrite (todo_len_step st i _ _ j (gstep_spec_ok st i)) in Hb, Hs.
+    destruct (Nat.eqb_spec j i) as [->|Hne].
+    + split; [destruct (snd (gstep st i)); lia|]. intros Hr.
+      destruct (Nat.eq_dec (todo_len st i) 0) as [E0|E0]; [destruct (snd (gstep st i)); lia|].
+      destruct (is_reading_answers st i Hr ltac:(lia)) as [rsp Ho]. rewrite Ho in Hb. lia.
+    + split; [exact Hb|]. intros [th [rsp [H1 H2]]]. apply Hs. exists th, rsp.
+      rewrite gstep_other_threads by exact Hne. auto.
+Qed.
+
+(* every operation commits at most once *)
+Theorem gcops_nodup sched : forall st, NoDup (gcops st sched).
+Proof.
+  induction sched as [|i rest IH]; intros st; [constructor|]. cbn [gcops].
+  pose proof (step_effect_spec st i) as Hsp.
+  destruct (step_effect st i) as [e|] eqn:E; cbn [app]; [|apply IH].
+  constructor; [|apply IH]. intros Hin. unfold op_of in Hin. apply gcops_bound in Hin. destruct Hin as [Hb Hs].
+  rewrite (todo_len_step st i _ _ i (gstep_spec_ok st i)), Nat.eqb_refl in Hb, Hs.
+  destruct Hsp as [_ [Ho|[Ho [r [_ [_ [_ Hc]]]]]]]; rewrite Ho in Hb, Hs; [lia|].
+  apply cur_req_reading in Hc. unfold op_of in Hc. apply reading_is_reading in Hc. apply Hs in Hc. lia.
+Qed.
+
+Lemma glog_t_gcops sched : forall st op r, In (op, r) (glog_t st sched) -> In op (gcops st sched).
+Proof.
+  induction sched as [|i rest IH]; intros st op r H; [destruct H|]. cbn [glog_t gcops] in *.
+  apply in_app_or in H. apply in_or_app. destruct H as [H|H].
+  - left. destruct (step_effect st i) as [[q|b n o]|]; [|destruct H|destruct H].
+    destruct H as [H|[]]. left. congruence.
+  - right. eapply IH. exact H.
 Qed.
 
 Lemma glog_t_bound sched : forall st j L r, In ((j, L), r) (glog_t st sched) -> (1 <= L <= todo_len st j)%nat.
+Proof. intros st j L r H. apply glog_t_gcops in H. apply gcops_bound in H. tauto. Qed.
+
+(* ... so the identities in the linearisation are distinct *)
+Theorem glog_t_nodup sched : forall st, NoDup (map fst (glog_t st sched)).
 Proof.
-  induction sched as [|i rest IH]; intros st j L r H; [destruct H|]. cbn [glog_t] in H.
+  induction sched as [|i rest IH]; intros st; [constructor|]. cbn [glog_t]. rewrite map_app.
+  pose proof (gcops_nodup (i :: rest) st) as Hnd. cbn [gcops] in Hnd.
+  destruct (step_effect st i) as [[q|b n o]|] eqn:E; cbn [map app]; try apply IH.
+  constructor; [|apply IH]. intros Hin. apply in_map_iff in Hin. destruct Hin as [[op r] [E1 Hin]].
+  cbn [fst] in E1. subst op. apply glog_t_gcops in Hin. cbn [app] in Hnd. inversion Hnd; auto.
+Qed.
+
+(* the commits and the answers of a run, each with the identity of its operation.  A commit
+   carries the response of its effect in the store of the commit step; an answer is an ODone *)
+Fixpoint gcommits_t (st : gstate) (sched : list nat) : list ((nat * nat) * resp) :=
+  match sched with
+  | [] => []
+  | i :: rest => match step_effect st i with Some e => [(op_of st i, effect_resp (g_store st) e)] | None => [] end
+                 ++ gcommits_t (fst (gstep st i)) rest
+  end.
+
+Fixpoint ganswers_t (st : gstate) (sched : list nat) : list ((nat * nat) * resp) :=
+  match sched with
+  | [] => []
+  | i :: rest => match snd (gstep st i) with ODone rsp => [(op_of st i, rsp)] | _ => [] end
+                 ++ ganswers_t (fst (gstep st i)) rest
+  end.
+
+Lemma gcommits_t_ops sched : forall st, map fst (gcommits_t st sched) = gcops st sched.
+Proof.
+  induction sched as [|i rest IH]; intros st; [reflexivity|]. cbn [gcommits_t gcops]. rewrite map_app, IH.
+  destruct (step_effect st i); reflexivity.
+Qed.
+
+Lemma gcommits_t_resps sched : forall st, map snd (gcommits_t st sched) = effect_resps (g_store st) (geffects st sched).
+Proof.
+  induction sched as [|i rest IH]; intros st; [reflexivity|]. cbn [gcommits_t geffects]. rewrite map_app, IH, step_effect_store.
+  destruct (step_effect st i); reflexivity.
+Qed.
+
+Lemma ganswers_t_resps sched : forall st, map snd (ganswers_t st sched) = done_resps (snd (grun st sched)).
+Proof.
+  induction sched as [|i rest IH]; intros st; [reflexivity|]. rewrite grun_cons. cbn [ganswers_t snd done_resps flat_map].
+  fold (done_resps (snd (grun (fst (gstep st i)) rest))). rewrite map_app, IH. destruct (snd (gstep st i)); reflexivity.
+Qed.
+
+Lemma gcommits_t_app l1 : forall st l2, gcommits_t st (l1 ++ l2) = gcommits_t st l1 ++ gcommits_t (fst (grun st l1)) l2.
+Proof.
+  induction l1 as [|i r IH]; intros st l2; [reflexivity|]. cbn [app gcommits_t]. rewrite grun_cons. cbn [fst].
+  rewrite IH, app_assoc. reflexivity.
+Qed.
+
+Lemma gcommits_t_in_ops sched : forall st op r, In (op, r) (gcommits_t st sched) -> In op (gops st sched).
+Proof.
+  induction sched as [|i rest IH]; intros st op r H; [destruct H|]. cbn [gcommits_t gops] in *.
   apply in_app_or in H. destruct H as [H|H].
-  - destruct (step_effect st i) as [[q|b n o]|] eqn:E; [|destruct H|destruct H].
-    destruct H as [H|[]]. unfold op_of in H. injection H as <- <- _. apply step_effect_todo in E. lia.
+  - left. destruct (step_effect st i); [|destruct H]. destruct H as [H|[]]. congruence.
+  - right. eapply IH. exact H.
+Qed.
+
+(* every answer is the response of the operation's commit — computed at the commit step, which for
+   a GET is its fetch — unless the operation was fetched before the run started *)
+Theorem answer_is_commit_response sched : forall st op rsp, In (op, rsp) (ganswers_t st sched) ->
+  In (op, rsp) (gcommits_t st sched) \/ reading st op rsp.
+Proof.
+  induction sched as [|i rest IH]; intros st op rsp H; [destruct H|]. cbn [ganswers_t gcommits_t] in *.
+  apply in_app_or in H. destruct H as [H|H].
+  - destruct (snd (gstep st i)) as [| |rsp0|] eqn:Ho; [destruct H|destruct H| |destruct H]. destruct H as [H|[]]. injection H as <- <-.
+    destruct (step_effect_done st i rsp0 Ho) as [[e [E ->]]|[E [r Hc]]].
+    + left. rewrite E. left. reflexivity.
+    + right. apply cur_req_reading in Hc. exact Hc.
+  - destruct (IH _ _ _ H) as [Hc|Hr]; [left; apply in_or_app; right; exact Hc|].
+    destruct op as [j L]. destruct (reading_step st i j L rsp Hr) as [Hr'|[-> [-> [_ [e [E ->]]]]]]; [right; exact Hr'|].
+    left. rewrite E. left. reflexivity.
+Qed.
+
+(* a parked reader stays parked until its own step, which gives the answer it holds *)
+Lemma reading_answered sched : forall st j L rsp, reading st (j, L) rsp ->
+  In ((j, L), rsp) (ganswers_t st sched) \/ reading (fst (grun st sched)) (j, L) rsp.
+Proof.
+  induction sched as [|k rest IH]; intros st j L rsp Hr; [right; exact Hr|]. rewrite grun_cons. cbn [fst ganswers_t].
+  destruct (Nat.eq_dec k j) as [->|Hne].
+  - pose proof Hr as [th [Hth [Hp Hl]]]. cbn [fst snd] in Hth, Hl. destruct (gt_todo th) as [|r rs] eqn:Htodo.
+    + rewrite (gstep_empty _ _ _ Hth Htodo). cbn [fst snd app]. apply IH. exact Hr.
+    + left. rewrite (gstep_read _ _ _ _ _ _ Hth Htodo Hp). cbn [snd]. left.
+      unfold op_of, todo_len. rewrite Hth, Htodo. rewrite <- Hl. reflexivity.
+  - assert (Hr1 : reading (fst (gstep st k)) (j, L) rsp).
+    { destruct Hr as [th H]. exists th. cbn [fst snd] in *. rewrite gstep_other_threads by auto. exact H. }
+    destruct (IH _ _ _ _ Hr1) as [H|H]; [left; apply in_or_app; right; exact H|right; exact H].
+Qed.
+
+(* every commit is answered with its response, or its operation is a GET still parked at the end *)
+Theorem commit_is_answered sched : forall st op rsp, In (op, rsp) (gcommits_t st sched) ->
+  In (op, rsp) (ganswers_t st sched) \/ reading (fst (grun st sched)) op rsp.
+Proof.
+  induction sched as [|i rest IH]; intros st op rsp H; [destruct H|]. rewrite grun_cons. cbn [fst ganswers_t gcommits_t] in *.
+  apply in_app_or in H. destruct H as [H|H].
+  - pose proof (step_effect_spec st i) as Hsp. destruct (step_effect st i) as [e|]; [|destruct H].
+    destruct H as [H|[]]. injection H as <- <-. destruct Hsp as [_ [Ho|[Ho [r [_ [_ [_ Hc]]]]]]].
+    + left. rewrite Ho. left. reflexivity.
+    + apply cur_req_reading in Hc. rewrite Ho. cbn [app].
+      assert (E : op_of (fst (gstep st i)) i = op_of st i).
+      { unfold op_of. rewrite (todo_len_step st i _ _ i (gstep_spec_ok st i)), Nat.eqb_refl, Ho. reflexivity. }
+      rewrite E in Hc. unfold op_of in *. apply reading_answered. exact Hc.
+  - destruct (IH _ _ _ H) as [Ha|Hr]; [left; apply in_or_app; right; exact Ha|right; exact Hr].
+Qed.
+
+(* the answers of a parked reader are the one it holds *)
+Lemma ganswers_t_bound sched : forall st j L rsp, In ((j, L), rsp) (ganswers_t st sched) -> (1 <= L <= todo_len st j)%nat.
+Proof.
+  induction sched as [|i rest IH]; intros st j L rsp H; [destruct H|]. cbn [ganswers_t] in H.
+  apply in_app_or in H. destruct H as [H|H].
+  - destruct (snd (gstep st i)) as [| |rsp0|] eqn:Ho; [destruct H|destruct H| |destruct H]. destruct H as [H|[]]. unfold op_of in H. injection H as <- <- _.
+    pose proof (todo_len_step st i _ _ i (gstep_spec_ok st i)) as Ht. rewrite Nat.eqb_refl, Ho in Ht.
+    revert Ho Ht. unfold todo_len. destruct (gstep_spec_ok st i) as [|? ? ? ? ? Hn Htodo| ? ? ? ? Hn Htodo | ? ? ? Hn Htodo | ? ? ? ? Hn Htodo | ? ? ? Hn Htodo | ? ? ? ? Hn Htodo];
+      intros Ho Ht; try discriminate; rewrite Hn, Htodo; cbn [length]; lia.
   - apply IH in H. rewrite (todo_len_step st i _ _ j (gstep_spec_ok st i)) in H.
     destruct (Nat.eqb_spec j i) as [->|Hne]; [|exact H]. destruct (snd (gstep st i)); lia.
 Qed.
 
-Theorem glog_t_nodup sched : forall st, NoDup (map fst (glog_t st sched)).
+Theorem reading_answer_unique sched : forall st j L rsp rsp', reading st (j, L) rsp ->
+  In ((j, L), rsp') (ganswers_t st sched) -> rsp' = rsp.
 Proof.
-  induction sched as [|i rest IH]; intros st; [constructor|]. cbn [glog_t]. rewrite map_app.
-  pose proof (step_effect_spec st i) as Hsp.
-  destruct (step_effect st i) as [[q|b n o]|] eqn:E; cbn [map app]; try apply IH.
-  constructor; [|apply IH]. intros Hin. apply in_map_iff in Hin. destruct Hin as [[[j L] r] [E1 Hin]].
-  cbn in E1. unfold op_of in E1. injection E1 as -> ->. apply glog_t_bound in Hin.
-  rewrite (todo_len_step st i _ _ i (gstep_spec_ok st i)), Nat.eqb_refl in Hin.
-  destruct Hsp as [_ Ho]. rewrite Ho in Hin. lia.
+  induction sched as [|k rest IH]; intros st j L rsp rsp' Hr H; [destruct H|]. cbn [ganswers_t] in H.
+  destruct (Nat.eq_dec k j) as [->|Hne].
+  - pose proof Hr as [th [Hth [Hp Hl]]]. cbn [fst snd] in Hth, Hl. destruct (gt_todo th) as [|r rs] eqn:Htodo.
+    + rewrite (gstep_empty _ _ _ Hth Htodo) in H. cbn [fst snd app] in H. eapply IH; eauto.
+    + pose proof (todo_len_step st j _ _ j (gstep_spec_ok st j)) as Ht. rewrite Nat.eqb_refl in Ht.
+      rewrite (gstep_read _ _ _ _ _ _ Hth Htodo Hp) in H, Ht. cbn [fst snd] in H, Ht.
+      apply in_app_or in H. destruct H as [[H|[]]|H]; [congruence|].
+      apply ganswers_t_bound in H. rewrite Ht in H. rewrite (reading_todo_len _ _ _ _ Hr) in H. lia.
+  - apply in_app_or in H. destruct H as [H|H].
+    + destruct (snd (gstep st k)); [destruct H|destruct H| |destruct H]. destruct H as [H|[]]. unfold op_of in H. congruence.
+    + assert (Hr1 : reading (fst (gstep st k)) (j, L) rsp).
+      { destruct Hr as [th Hx]. exists th. cbn [fst snd] in *. rewrite gstep_other_threads by auto. exact Hx. }
+      eapply IH; eauto.
+Qed.
+
+(* programs without GETs, started with no reader parked: answers and commits coincide step by step *)
+Definition not_get (r : req) : Prop := is_get r = false.
+Definition no_reads (st : gstate) : Prop := forall th, In th (g_threads st) -> forall rsp, gt_prog th <> GRead rsp.
+
+Lemma not_get_freeze s r : not_get r -> not_get (freeze s r).
+Proof. unfold not_get. rewrite is_get_freeze_eq. auto. Qed.
+
+Lemma no_reads_init s0 progs : no_reads (init_g s0 progs).
+Proof. intros th Hin rsp. cbn in Hin. apply in_map_iff in Hin. destruct Hin as [rs [<- _]]. discriminate. Qed.
+
+Lemma no_reads_not_reading st op rsp : no_reads st -> ~ reading st op rsp.
+Proof. intros Hn [th [H1 [H2 _]]]. apply nth_error_In in H1. eapply Hn; eauto. Qed.
+
+Lemma no_reads_step st i st' o : all_reqs not_get st -> no_reads st -> gstep_spec st i st' o -> no_reads st'.
+Proof.
+  intros Hall Hn Hs.
+  destruct Hs as [|th r0 rest k j Hth Htodo Hprog Hk Hearly Hho Hji
+                  |th r0 rest k Hth Htodo Hprog Hk Hearly Hho Hry
+                  |th r0 rest Hth Htodo Hprog Hat
+                  |th r rest cap Hth Htodo Hprog
+                  |th r0 rest Hth Htodo Hprog Hk Hget
+                  |th r rest rsp Hth Htodo Hprog]; [exact Hn|..];
+    intros th' Hin rsp'; cbn [g_threads] in Hin; apply in_upd_nth in Hin; destruct Hin as [->|Hin];
+    try (apply Hn; exact Hin); try discriminate.
+  exfalso. apply nth_error_In in Hth. apply Hall in Hth. rewrite Htodo in Hth. inversion Hth as [|x y Hx Hy]; subst.
+  apply (not_get_freeze (g_store st)) in Hx. unfold not_get in Hx. congruence.
+Qed.
+
+Theorem gconc_effect_resps_get_free sched : forall st, all_reqs not_get st -> no_reads st ->
+  done_resps (snd (grun st sched)) = effect_resps (g_store st) (geffects st sched).
+Proof.
+  induction sched as [|i rest IH]; intros st Hall Hn; [reflexivity|].
+  rewrite grun_cons. cbn [snd geffects done_resps flat_map]. fold (done_resps (snd (grun (fst (gstep st i)) rest))).
+  rewrite IH; [|apply all_reqs_gstep; auto using not_get_freeze|eapply no_reads_step; eauto using gstep_spec_ok].
+  pose proof (step_effect_spec st i) as H. destruct (step_effect st i) as [e|].
+  - destruct H as [H1 [H2|[_ [r [_ [Hg [Hc _]]]]]]].
+    + rewrite H1, H2. reflexivity.
+    + exfalso. apply (step_effect_req not_get st i r not_get_freeze Hall) in Hc. unfold not_get in Hc. congruence.
+  - destruct H as [H1 H2]. rewrite H1. destruct (snd (gstep st i)) as [| |rsp|]; try reflexivity.
+    exfalso. destruct (H2 rsp eq_refl) as [r Hc]. apply cur_req_reading in Hc. eapply no_reads_not_reading; eauto.
+Qed.
+
+(* the responses: commit responses in commit order are the responses of the effects; the answers
+   given are exactly the commit responses of the same operations (a GET answers later than it
+   commits, so the ORDER of the answers may differ from the commit order) *)
+Theorem gconc_effect_resps sched st :
+  map snd (gcommits_t st sched) = effect_resps (g_store st) (geffects st sched)
+  /\ map snd (ganswers_t st sched) = done_resps (snd (grun st sched))
+  /\ (forall op rsp, In (op, rsp) (ganswers_t st sched) -> In (op, rsp) (gcommits_t st sched) \/ reading st op rsp)
+  /\ (forall op rsp, In (op, rsp) (gcommits_t st sched) ->
+        In (op, rsp) (ganswers_t st sched) \/ reading (fst (grun st sched)) op rsp)
+  /\ NoDup (map fst (gcommits_t st sched)).
+Proof.
+  split; [apply gcommits_t_resps|]. split; [apply ganswers_t_resps|]. split; [apply answer_is_commit_response|].
+  split; [apply commit_is_answered|]. rewrite gcommits_t_ops. apply gcops_nodup.
+Qed.
+
+(* item 3: for programs without compose, every schedule is equivalent to the SEQUENTIAL run of
+   the frozen requests in commit order: same final store, and every operation's response is the
+   response the sequential run gives at its position (gcommits_t lists them in commit order; the
+   answers given are these, by gconc_effect_resps) *)
+Theorem gconc_serializable_object_from st sched : all_reqs not_compose st ->
+  g_store (fst (grun st sched)) = fst (run (g_store st) (glog st sched))
+  /\ map snd (gcommits_t st sched) = snd (run (g_store st) (glog st sched))
+  /\ map fst (gcommits_t st sched) = map fst (glog_t st sched).
+Proof.
+  intros Hall. rewrite gconc_effects, gcommits_t_resps. pose proof (geffects_handle sched st Hall) as Hh.
+  destruct (handle_effects_run _ Hh (g_store st)) as [H1 H2]. split; [exact H1|]. split; [exact H2|].
+  rewrite gcommits_t_ops. clear H1 H2 Hh. revert st Hall.
+  induction sched as [|i rest IH]; intros st Hall; [reflexivity|]. cbn [gcops glog_t]. rewrite map_app, IH
+    by (apply all_reqs_gstep; auto using not_compose_freeze).
+  f_equal. destruct (step_effect st i) as [e|] eqn:E; [|reflexivity].
+  apply (step_effect_handle st i e Hall) in E. destruct e; [reflexivity|destruct E].
+Qed.
+
+(* ... and without GETs either (no reader parked at the start), the answers come in commit order:
+   the former statement *)
+Theorem gconc_serializable_object_get_free_from st sched : all_reqs not_compose st -> all_reqs not_get st -> no_reads st ->
+  g_store (fst (grun st sched)) = fst (run (g_store st) (glog st sched))
+  /\ done_resps (snd (grun st sched)) = snd (run (g_store st) (glog st sched)).
+Proof.
+  intros Hall Hg Hn. rewrite gconc_effects, (gconc_effect_resps_get_free sched st Hg Hn).
+  apply handle_effects_run. apply geffects_handle. exact Hall.
+Qed.
+
+Theorem gconc_serializable_object s0 progs sched : Forall (Forall not_compose) progs ->
+  let st := init_g s0 progs in
+  g_store (fst (grun st sched)) = fst (run s0 (glog st sched))
+  /\ map snd (gcommits_t st sched) = snd (run s0 (glog st sched))
+  /\ map fst (gcommits_t st sched) = map fst (glog_t st sched)
+  /\ (forall op rsp, In (op, rsp) (ganswers_t st sched) -> In (op, rsp) (gcommits_t st sched))
+  /\ (forall op rsp, In (op, rsp) (gcommits_t st sched) ->
+        In (op, rsp) (ganswers_t st sched) \/ reading (fst (grun st sched)) op rsp).
+Proof.
+  intros H st. destruct (gconc_serializable_object_from st sched) as [H1 [H2 H3]]; [apply all_reqs_init; exact H|].
+  split; [exact H1|]. split; [exact H2|]. split; [exact H3|]. split; [|apply commit_is_answered].
+  intros op rsp Ha. destruct (answer_is_commit_response _ _ _ _ Ha) as [Hc|Hr]; [exact Hc|].
+  exfalso. eapply no_reads_not_reading; [apply no_reads_init|exact Hr].
+Qed.
+
+Theorem gconc_serializable_object_get_free s0 progs sched :
+  Forall (Forall not_compose) progs -> Forall (Forall not_get) progs ->
+  let st := init_g s0 progs in
+  g_store (fst (grun st sched)) = fst (run s0 (glog st sched))
+  /\ done_resps (snd (grun st sched)) = snd (run s0 (glog st sched)).
+Proof.
+  intros H Hg st. apply (gconc_serializable_object_get_free_from st sched); [apply all_reqs_init; exact H|apply all_reqs_init; exact Hg|apply no_reads_init].
+Qed.
+
+(* real-time order for answers: an operation that has ANSWERED in s1 has committed in s1 *)
+Theorem answered_has_committed st s1 A rsp : ~ reading st A rsp -> In (A, rsp) (ganswers_t st s1) -> In (A, rsp) (gcommits_t st s1).
+Proof. intros Hn Ha. destruct (answer_is_commit_response _ _ _ _ Ha); tauto. Qed.
+
+Theorem gconc_real_time_answered st s1 s2 A rspA B rspB :
+  ~ reading st A rspA -> In (A, rspA) (ganswers_t st s1) -> ~ In B (gops st s1) -> In (B, rspB) (gcommits_t st (s1 ++ s2)) ->
+  exists l1 l2 l3, gcommits_t st (s1 ++ s2) = l1 ++ (A, rspA) :: l2 ++ (B, rspB) :: l3.
+Proof.
+  intros Hn HA HB HBin. apply (answered_has_committed _ _ _ _ Hn) in HA.
+  rewrite gcommits_t_app in *. apply in_app_or in HBin. destruct HBin as [HBin|HBin].
+  - exfalso. apply HB. eapply gcommits_t_in_ops. exact HBin.
+  - apply in_split in HA. destruct HA as [a1 [a2 ->]]. apply in_split in HBin. destruct HBin as [b1 [b2 ->]].
+    exists a1, (a2 ++ b1), b2. rewrite <- !app_assoc. cbn [app]. reflexivity.
 Qed.
 
 (* ---- compose: the weaker, true fact ---- *)
@@ -801,7 +1236,8 @@ Theorem compose_capture st i b dst bad srcs dm cp :
                                   (s_clock (g_store st) + 1) 1 false (dm_meta dm)))).
 Proof.
   intros Hcur Ho. pose proof (gstep_spec_ok st i) as Hs. rewrite Ho in Hs.
-  inversion Hs as [| |th r0 rest k Hth Htodo Hprog Hk Hearly Hho Hry Hst| |]; subst. clear Hs.
+  inversion Hs as [| |th r0 rest k Hth Htodo Hprog Hk Hearly Hho Hry Hst| | |th r0 rest Hth Htodo Hprog Hk Hget Hst|]; subst; clear Hs;
+    [|exfalso; unfold cur_req in Hcur; rewrite Hth, Htodo, Hprog in Hcur; injection Hcur as Hr; rewrite Hr in Hget; discriminate].
   unfold cur_req in Hcur. rewrite Hth, Htodo, Hprog in Hcur. injection Hcur as Hr.
   rewrite Hr in *. unfold reaches_yield in Hry. apply Z.eqb_eq in Hry.
   destruct (compose_200_inv _ _ _ _ _ _ _ Hry) as [dstname [x [Hsplit [Huse Hfst]]]].
@@ -831,7 +1267,8 @@ Proof.
   { unfold cur_req in Hcur. destruct (nth_error (g_threads st) i) as [th|] eqn:Hth; [|discriminate].
     destruct (gt_todo th) as [|r0 rest] eqn:Htodo; [discriminate|]. injection Hcur as Hr Hp. rewrite Hp in Hr. subst r0.
     rewrite (step_effect_hold _ _ _ _ _ _ Hth Htodo Hp). unfold hold_effect. rewrite Hk. reflexivity. }
-  split; [exact He|]. pose proof (step_effect_spec st i) as Hsp. rewrite He in Hsp. destruct Hsp as [H1 H2].
+  split; [exact He|]. pose proof (step_effect_spec st i) as Hsp. rewrite He in Hsp.
+  destruct Hsp as [H1 [H2|[_ [r [Er _]]]]]; [|discriminate Er].
   cbn [apply_geffect effect_resp] in H1, H2. fold s in H1, H2.
   assert (Hf : find_obj (g_store (fst (gstep st i))) b d = Some o').
   { rewrite H1. apply find_obj_store_add_same. }
@@ -848,10 +1285,11 @@ Proof. intros H Hall th Hin. eapply Forall_impl; [exact H|]. apply Hall. exact H
 
 Lemma step_effect_handle_req st i r : step_effect st i = Some (EHandle r) -> exists p, cur_req st i = Some (r, p).
 Proof.
-  unfold step_effect. destruct (snd (gstep st i)); try discriminate.
-  destruct (cur_req st i) as [[q [|cap]]|]; try discriminate; intros H; injection H as H.
-  - subst. eauto.
-  - unfold hold_effect in H. destruct q; try (injection H as <-; eauto).
+  unfold step_effect. destruct (snd (gstep st i)); try discriminate;
+  destruct (cur_req st i) as [[q [|cap|ans]]|]; try discriminate.
+  - destruct (is_get q); [|discriminate]. intros H; injection H as <-. eauto.
+  - intros H; injection H as <-. eauto.
+  - intros H; injection H as H. unfold hold_effect in H. destruct q; try (injection H as <-; eauto).
     destruct cap; [destruct (lock_key _); [discriminate|]|]; injection H as <-; eauto.
 Qed.
 
@@ -884,7 +1322,9 @@ Proof.
   destruct Hs as [|th r0 rest k j Hn Htodo Hprog Hk Hearly Hho Hji
                   |th r0 rest k Hn Htodo Hprog Hk Hearly Hho Hry
                   |th r0 rest Hn Htodo Hprog Hat
-                  |th r rest cap Hn Htodo Hprog]; [lia|..]; cbn [g_threads];
+                  |th r rest cap Hn Htodo Hprog
+                  |th r0 rest Hn Htodo Hprog Hk Hget
+                  |th r rest rsp Hn Htodo Hprog]; [lia|..]; cbn [g_threads];
   match goal with |- context [upd_nth _ _ ?v] =>
     pose proof (list_sum_upd (fun th => length (gt_todo th)) _ _ _ v Hn) as H end;
   cbn [gt_todo] in H; rewrite Htodo in H; cbn [length] in H; lia.
@@ -918,6 +1358,7 @@ Section OneWinner.
   Variables armed spent : state -> Prop.
   Hypothesis P_freeze : forall s r, P r -> P (freeze s r).
   Hypothesis P_not_compose : forall r, P r -> not_compose r.
+  Hypothesis P_not_get : forall r, P r -> not_get r.
   Hypothesis win : forall s r, P r -> armed s -> r_status (snd (handle s r)) = 200 /\ spent (fst (handle s r)).
   Hypothesis lose : forall s r, P r -> spent s -> handle s r = (s, err 412).
 
@@ -939,14 +1380,20 @@ Section OneWinner.
   Qed.
 
   (* concurrently, for every schedule that lets all threads finish: the first to commit answers
-     200, every other one 412 *)
-  Theorem one_winner_conc st sched : all_reqs P st -> armed (g_store st) ->
+     200, every other one 412.
+     FULL statement (without no_reads st) is false since threads can be parked in GRead: a thread of
+     st parked in GRead answers with whatever response it holds, whatever its request is
+     (exactly_one_conditional_writer_wins_from_refuted_parked_reader).  Exact guard: no thread of st
+     is parked in GRead — true of every initial state, and of every state reachable from one by
+     these programs, which contain no GET. *)
+  Theorem one_winner_conc_partial st sched : all_reqs P st -> no_reads st -> armed (g_store st) ->
     all_done (fst (grun st sched)) ->
     map r_status (done_resps (snd (grun st sched)))
     = match pending st with O => [] | S k => 200 :: repeat 412 k end.
   Proof.
-    intros Hall Harm Hdone.
-    destruct (gconc_serializable_object_from st sched (all_reqs_weaken _ _ st P_not_compose Hall)) as [_ Hresp].
+    intros Hall Hnr Harm Hdone.
+    destruct (gconc_serializable_object_get_free_from st sched (all_reqs_weaken _ _ st P_not_compose Hall)
+                (all_reqs_weaken _ _ st P_not_get Hall) Hnr) as [_ Hresp].
     pose proof (pending_grun sched st) as Hp. rewrite (all_done_pending _ Hdone), Hresp, run_length in Hp.
     rewrite Hresp, (one_winner_seq _ _ (glog_all P sched P_freeze st Hall) Harm).
     cbn [Nat.add] in Hp. rewrite Hp. destruct (glog st sched); reflexivity.
@@ -1001,20 +1448,31 @@ Lemma gen_upload_freeze b n g s r : gen_upload b n g r -> gen_upload b n g (free
 Proof. intros [ct [d ->]]. exists ct, d. reflexivity. Qed.
 Lemma gen_upload_not_compose b n g r : gen_upload b n g r -> not_compose r.
 Proof. intros [ct [d ->]]. exact I. Qed.
+Lemma gen_upload_not_get b n g r : gen_upload b n g r -> not_get r.
+Proof. intros [ct [d ->]]. reflexivity. Qed.
+
+Lemma no_reads_grun sched : forall st, all_reqs not_get st -> no_reads st -> no_reads (fst (grun st sched)).
+Proof.
+  induction sched as [|i rest IH]; intros st Hall Hn; [exact Hn|]. rewrite grun_cons. cbn [fst].
+  apply IH; [apply all_reqs_gstep; auto using not_get_freeze|eapply no_reads_step; eauto using gstep_spec_ok].
+Qed.
 
 (* item 4, generation-conditioned: any number of threads, any number of uploads each, all
-   conditioned on the generation g the object has; every schedule that lets all finish *)
-Theorem exactly_one_conditional_writer_wins_from st sched b n g :
+   conditioned on the generation g the object has; every schedule that lets all finish.
+   FULL statement (without no_reads st): false now that a thread can be parked in GRead, see
+   exactly_one_conditional_writer_wins_from_refuted_parked_reader; exact guard no_reads st. *)
+Theorem exactly_one_conditional_writer_wins_from_partial st sched b n g :
   n <> [] -> 0 < g <= int64_max ->
-  all_reqs (gen_upload b n g) st -> has_gen b n g (g_store st) ->
+  all_reqs (gen_upload b n g) st -> no_reads st -> has_gen b n g (g_store st) ->
   all_done (fst (grun st sched)) ->
   map r_status (done_resps (snd (grun st sched)))
   = match pending st with O => [] | S k => 200 :: repeat 412 k end.
 Proof.
-  intros Hn Hg Hall Hgen Hdone.
-  apply (one_winner_conc (gen_upload b n g) (has_gen b n g) (has_other_gen b n g)); auto.
+  intros Hn Hg Hall Hnr Hgen Hdone.
+  apply (one_winner_conc_partial (gen_upload b n g) (has_gen b n g) (has_other_gen b n g)); auto.
   - apply gen_upload_freeze.
   - apply gen_upload_not_compose.
+  - apply gen_upload_not_get.
   - intros s r. apply gen_upload_win; auto.
   - intros s r. apply gen_upload_lose; auto.
 Qed.
@@ -1039,7 +1497,7 @@ Theorem exactly_one_conditional_writer_wins s0 b n g (payloads : list (str * byt
 Proof.
   intros Hn Hg Hgen st Hdone.
   rewrite <- (list_sum_ones (fun cd => [RUploadMedia b n (fst cd) (snd cd) (cp_lit (print_int g))]) payloads) by reflexivity.
-  rewrite <- (pending_init s0). apply (exactly_one_conditional_writer_wins_from st sched b n g); auto.
+  rewrite <- (pending_init s0). apply (exactly_one_conditional_writer_wins_from_partial st sched b n g); auto; [|apply no_reads_init].
   apply all_reqs_init. apply Forall_forall. intros rs Hin. apply in_map_iff in Hin. destruct Hin as [cd [<- _]].
   constructor; [|constructor]. exists (fst cd), (snd cd). reflexivity.
 Qed.
@@ -1067,16 +1525,18 @@ Proof.
   destruct n as [|c n']; [congruence|]. unfold finish_upload. rewrite Hf. reflexivity.
 Qed.
 
-Theorem exactly_one_dne_writer_wins_from st sched b n :
-  n <> [] -> all_reqs (dne_upload b n) st -> absent b n (g_store st) ->
+(* FULL statement (without no_reads st) false for the same reason; exact guard no_reads st *)
+Theorem exactly_one_dne_writer_wins_from_partial st sched b n :
+  n <> [] -> all_reqs (dne_upload b n) st -> no_reads st -> absent b n (g_store st) ->
   all_done (fst (grun st sched)) ->
   map r_status (done_resps (snd (grun st sched)))
   = match pending st with O => [] | S k => 200 :: repeat 412 k end.
 Proof.
-  intros Hn Hall Habs Hdone.
-  apply (one_winner_conc (dne_upload b n) (absent b n) (present b n)); auto.
+  intros Hn Hall Hnr Habs Hdone.
+  apply (one_winner_conc_partial (dne_upload b n) (absent b n) (present b n)); auto.
   - intros s r [ct [d ->]]. exists ct, d. reflexivity.
   - intros r [ct [d ->]]. exact I.
+  - intros r [ct [d ->]]. reflexivity.
   - intros s r. apply dne_upload_win; auto.
   - intros s r. apply dne_upload_lose; auto.
 Qed.
@@ -1090,7 +1550,7 @@ Theorem exactly_one_dne_writer_wins s0 b n (payloads : list (str * bytes)) sched
 Proof.
   intros Hn Habs st Hdone.
   rewrite <- (list_sum_ones (fun cd => [RUploadMedia b n (fst cd) (snd cd) (cp_lit [48%N])]) payloads) by reflexivity.
-  rewrite <- (pending_init s0). apply (exactly_one_dne_writer_wins_from st sched b n); auto.
+  rewrite <- (pending_init s0). apply (exactly_one_dne_writer_wins_from_partial st sched b n); auto; [|apply no_reads_init].
   apply all_reqs_init. apply Forall_forall. intros rs Hin. apply in_map_iff in Hin. destruct Hin as [cd [<- _]].
   constructor; [|constructor]. exists (fst cd), (snd cd). reflexivity.
 Qed.
@@ -1488,10 +1948,31 @@ Proof.
   - rewrite nth_error_upd_other in H1 by exact Hne. exists th, cr, d, rest, cap. auto.
 Qed.
 
+Lemma parked_put_upd_nohold s' hs' st i th0 v j sid k : nth_error (g_threads st) i = Some th0 ->
+  (forall cap, gt_prog v <> GHold cap) ->
+  (forall k0 j0, In (k0, j0) hs' -> In (k0, j0) (g_holders st)) ->
+  parked_put (mkGState s' hs' (upd_nth (g_threads st) i v)) j sid k -> parked_put st j sid k.
+Proof.
+  intros Hth Hv Hsub [th [cr [d [rest [cap [H1 [H2 [H3 H4]]]]]]]]. cbn [g_threads g_holders] in *.
+  destruct (Nat.eq_dec j i) as [->|Hne].
+  - rewrite (nth_error_upd_same _ _ _ _ Hth) in H1. injection H1 as <-. exfalso. eapply Hv; eauto.
+  - rewrite nth_error_upd_other in H1 by exact Hne. exists th, cr, d, rest, cap. auto.
+Qed.
+
 Theorem gsess_inv_step st i st' o : glock_inv st -> gsess_inv st -> s_upcount (g_store st) < int64_max ->
   gstep_spec st i st' o -> gsess_inv st'.
 Proof.
   intros Hinv [Hwf [Hcoh Hold]] Hb Hs.
+  (* a step that leaves the store alone and does not park thread i holding a lock (the two steps of a GET) *)
+  assert (Hsame : forall th hs' v, nth_error (g_threads st) i = Some th -> (forall cap, gt_prog v <> GHold cap) ->
+            (forall k0 j0, In (k0, j0) hs' -> In (k0, j0) (g_holders st)) ->
+            gsess_inv (mkGState (g_store st) hs' (upd_nth (g_threads st) i v))).
+  { intros th hs' v Hth Hv Hsub.
+    assert (Hpp : forall j sid k, parked_put (mkGState (g_store st) hs' (upd_nth (g_threads st) i v)) j sid k -> parked_put st j sid k).
+    { intros j sid k. apply (parked_put_upd_nohold _ _ st i th); auto. }
+    split; [exact Hwf|]. split.
+    - intros j sid k u Hp Hl. apply Hpp in Hp. eapply Hcoh; eauto.
+    - intros j sid k Hp. apply Hpp in Hp. eapply Hold; eauto. }
   (* a step that ends a request: the store moves by one effect, parked threads stay parked *)
   assert (Hfin : forall th e todo, nth_error (g_threads st) i = Some th ->
             gsess_inv (mkGState (apply_geffect (g_store st) e) (release (g_holders st) i)
@@ -1510,7 +1991,9 @@ Proof.
   destruct Hs as [Hid|th r0 rest k0 j' Hth Htodo Hprog Hk Hearly Hho Hji
                   |th r0 rest k0 Hth Htodo Hprog Hk Hearly Hho Hry
                   |th r0 rest Hth Htodo Hprog Hat
-                  |th r rest cap Hth Htodo Hprog].
+                  |th r rest cap Hth Htodo Hprog
+                  |th r0 rest Hth Htodo Hprog Hk Hget
+                  |th r rest rsp Hth Htodo Hprog].
   - split; [exact Hwf|]. split; assumption.
   - (* blocked *)
     assert (Hpp : forall j sid k, parked_put (mkGState (g_store st) (g_holders st)
@@ -1542,6 +2025,8 @@ Proof.
       * destruct Hwf as [_ [_ Hw]]. eapply Hw; eauto.
   - eapply Hfin; eauto.
   - eapply Hfin; eauto.
+  - eapply Hsame; eauto. intros cap; discriminate.
+  - eapply Hsame; eauto; [intros cap; discriminate|]. intros k0 j0 H. apply release_in in H. tauto.
 Qed.
 
 Lemma gstep_upcount st i : s_upcount (g_store st) <= s_upcount (g_store (fst (gstep st i))) <= s_upcount (g_store st) + 1.
@@ -1647,9 +2132,13 @@ Proof.
   destruct (gstep_spec_ok st j) as [|th r0 rest k' j' Hth Htodo Hprog Hk Hearly Hho Hji
                                          |th r0 rest k' Hth Htodo Hprog Hk Hearly Hho Hry
                                          |th r0 rest Hth Htodo Hprog Hat
-                                         |th r rest cap Hth Htodo Hprog]; try discriminate.
+                                         |th r rest cap Hth Htodo Hprog
+                  |th r0 rest Hth Htodo Hprog Hk Hget
+                  |th r rest rsp Hth Htodo Hprog]; [discriminate|discriminate|..].
+  - rewrite Hth, Htodo, Hprog. destruct (is_get (freeze (g_store st) r0)) eqn:Eg; [|discriminate].
+    rewrite (is_get_no_key _ _ Eg) in Hk. discriminate.
   - rewrite Hth, Htodo, Hprog. intros E. injection E as <-. cbn [effect_key apply_geffect].
-    destruct Hat as [Hnone|[k' [Hk [Hearly|[Hho _]]]]].
+    destruct Hat as [[Hnone _]|[k' [Hk [Hearly|[Hho _]]]]].
     + left. congruence.
     + right. apply gearly_unchanged. exact Hearly.
     + left. rewrite Hk. intros E. injection E as ->. apply holder_of_none in Hho. apply Hho.
@@ -1658,6 +2147,10 @@ Proof.
     destruct (gi_hold _ Hinv _ _ _ Hth Hprog) as [r' [rest' [k' [Ht Hin]]]]. rewrite Htodo in Ht. injection Ht as <- <-.
     intros Hek. apply Hne. symmetry. apply (holders_key_inj st k i j Hinv Hki).
     rewrite (held_effect_key st j th r rest cap k' k Hinv Hcoh Hth Htodo Hprog Hin Hek). exact Hin.
+  - (* the fetch of a GET changes nothing *)
+    rewrite Hth, Htodo, Hprog, Hget. intros E. injection E as <-. right. cbn [apply_geffect].
+    apply get_store_unchanged. exact Hget.
+  - rewrite Hth, Htodo, Hprog. discriminate.
 Qed.
 
 (* held_object_stable, full statement — FALSE in this model for arbitrary states, see
@@ -1696,6 +2189,7 @@ Lemma holder_kept st i j k : In (k, i) (g_holders st) -> j <> i -> In (k, i) (g_
 Proof.
   intros Hin Hne. destruct (gstep_spec_ok st j); cbn [g_holders]; auto.
   - right. exact Hin.
+  - apply release_in. auto.
   - apply release_in. auto.
   - apply release_in. auto.
 Qed.
@@ -1907,7 +2401,7 @@ Theorem metagen_patch_never_applies_to_unmatched_state st i b n p cp m rsp :
                      (o_gen o) (m + 1) (o_md5 o)
                      (match pt_meta p with Some kv => merge_meta (o_meta o) kv | None => o_meta o end)).
 Proof.
-  intros E Hcp Hm Ho H200. pose proof (step_effect_spec st i) as Hsp. rewrite E in Hsp. destruct Hsp as [H1 H2].
+  intros E Hcp Hm Ho H200. pose proof (step_effect_spec st i) as Hsp. rewrite E in Hsp. destruct Hsp as [H1 [H2|[H2 _]]]; [|congruence].
   rewrite H2 in Ho. injection Ho as <-. rewrite H1. cbn [apply_geffect effect_resp] in *.
   apply patch_200_metagen; auto.
 Qed.
@@ -1951,7 +2445,8 @@ Proof.
   assert (Hsafe1 : sess_safe (length mid) (fst (gstep st i))) by (apply sess_safe_gstep; assumption).
   assert (Hall1 : all_reqs lock_respecting (fst (gstep st i))) by (apply all_reqs_gstep; auto using lock_respecting_freeze).
   remember (fst (gstep st i)) as st1 eqn:Est1.
-  inversion Hs as [| |th r0 rest k Hth Htodo Hprog Hk Hearly Hho Hry Hst| |]. clear Hs.
+  inversion Hs as [| |th r0 rest k Hth Htodo Hprog Hk Hearly Hho Hry Hst| | |th r0 rest Hth Htodo Hprog Hk Hget Hst|]; clear Hs;
+    [|exfalso; unfold cur_req in Hcur; rewrite Hth, Htodo, Hprog in Hcur; injection Hcur as Hr; rewrite Hr in Hget; discriminate].
   unfold cur_req in Hcur. rewrite Hth, Htodo, Hprog in Hcur. injection Hcur as Hr.
   rewrite Hr in *. clear Hearly.
   assert (Ek : k = (b, n)) by (cbn in Hk; congruence). subst k.
@@ -1986,27 +2481,115 @@ Qed.
 (* ================================================================== *)
 (* 7. Reads (item 7)                                                    *)
 
-(* a metadata / media read is one atomic step: what it returns (generation, metageneration,
-   metadata, content) is the object as stored in ONE reachable store state, the store at that
-   step, and the step changes nothing in the store *)
-Theorem mem_read_snapshot st i b n p r :
-  cur_req st i = Some (r, p) -> r = RGetMeta b n \/ r = RGetMedia b n ->
-  g_store (fst (gstep st i)) = g_store st
-  /\ snd (gstep st i) = ODone (match find_obj (g_store st) b n with
-                               | Some o => if match r with RGetMeta _ _ => true | _ => false end
-                                           then mkResp 200 (BMeta (view b n o))
-                                           else mkResp 200 (BMedia (o_data o) (o_ctype o) (o_gen o) (o_metagen o))
-                               | None => err 404
-                               end).
+(* A GET (object metadata, media, bucket metadata) is two steps: the FETCH, one store read, after
+   which the thread is parked (GRead) holding the response built from what it read, and the ANSWER,
+   which gives that response.  Writers may commit in between. *)
+
+(* the response of an object GET, computed in store s: every field comes from the ONE object stored
+   under (b, n) in s *)
+Lemma get_response_shape s b n r : r = RGetMeta b n \/ r = RGetMedia b n ->
+  snd (handle s r) = match find_obj s b n with
+                     | Some o => if match r with RGetMeta _ _ => true | _ => false end
+                                 then mkResp 200 (BMeta (view b n o))
+                                 else mkResp 200 (BMedia (o_data o) (o_ctype o) (o_gen o) (o_metagen o))
+                     | None => err 404
+                     end.
+Proof. intros [-> | ->]; cbn [handle]; destruct (find_obj s b n); reflexivity. Qed.
+
+Lemma not_holding_unless_hold st i th : glock_inv st -> nth_error (g_threads st) i = Some th ->
+  (forall cap, gt_prog th <> GHold cap) -> ~ In i (map snd (g_holders st)).
 Proof.
-  intros Hcur Hr. unfold cur_req in Hcur.
-  destruct (nth_error (g_threads st) i) as [th|] eqn:Hth; [|discriminate].
-  destruct (gt_todo th) as [|r0 rest] eqn:Htodo; [discriminate|]. injection Hcur as Hr0 Hp.
-  assert (Hr0' : r0 = r).
-  { destruct (gt_prog th); [|exact Hr0]. destruct Hr as [-> | ->]; destruct r0; cbn [freeze] in Hr0; congruence. }
-  subst r0. unfold gstep. rewrite Hth, Htodo.
-  destruct Hr as [-> | ->]; destruct (gt_prog th); cbn [freeze lock_key handle];
-    destruct (find_obj (g_store st) b n); cbn [fst snd g_store]; split; reflexivity.
+  intros Hinv Hth Hp Hin. apply in_map_iff in Hin. destruct Hin as [[k j] [E Hin]]. cbn in E. subst j.
+  apply (gi_in _ Hinv) in Hin. destruct Hin as [th' [r [rest [cap [H1 [H2 [H3 H4]]]]]]].
+  rewrite Hth in H1. injection H1 as <-. eapply Hp; eauto.
+Qed.
+
+Lemma cur_req_new_inv st i r : cur_req st i = Some (r, GNew) ->
+  exists th r0 rest, nth_error (g_threads st) i = Some th /\ gt_todo th = r0 :: rest /\ gt_prog th = GNew
+                     /\ r = freeze (g_store st) r0.
+Proof.
+  unfold cur_req. destruct (nth_error (g_threads st) i) as [th|] eqn:Hth; [|discriminate].
+  destruct (gt_todo th) as [|r0 rest] eqn:Htodo; [discriminate|]. intros H. injection H as H1 H2.
+  rewrite H2 in H1. subst r. exists th, r0, rest. repeat split; auto.
+Qed.
+
+Lemma cur_req_read_inv st i r rsp : cur_req st i = Some (r, GRead rsp) ->
+  exists th rest, nth_error (g_threads st) i = Some th /\ gt_todo th = r :: rest /\ gt_prog th = GRead rsp.
+Proof.
+  unfold cur_req. destruct (nth_error (g_threads st) i) as [th|] eqn:Hth; [|discriminate].
+  destruct (gt_todo th) as [|r0 rest] eqn:Htodo; [discriminate|]. intros H. injection H as H1 H2.
+  rewrite H2 in H1. subst r0. exists th, rest. repeat split; auto.
+Qed.
+
+(* the fetch step of a GET, explicitly *)
+Lemma get_fetch_step st i r : cur_req st i = Some (r, GNew) -> is_get r = true ->
+  exists th r0 rest, nth_error (g_threads st) i = Some th /\ gt_todo th = r0 :: rest
+    /\ gstep st i = (mkGState (g_store st) (g_holders st)
+                       (upd_nth (g_threads st) i (mkGThread (r :: rest) (GRead (snd (handle (g_store st) r))))), OAt).
+Proof.
+  intros Hcur Hg. destruct (cur_req_new_inv _ _ _ Hcur) as [th [r0 [rest [Hth [Htodo [Hprog ->]]]]]].
+  exists th, r0, rest. split; [exact Hth|]. split; [exact Htodo|].
+  apply (gstep_fetch st i th r0 rest Hth Htodo Hprog); [apply is_get_no_key; exact Hg|exact Hg].
+Qed.
+
+(* get_changes_nothing: neither step of a GET changes the store or the holders *)
+Theorem get_changes_nothing st i r : glock_inv st ->
+  (cur_req st i = Some (r, GNew) /\ is_get r = true) \/ (exists rsp, cur_req st i = Some (r, GRead rsp)) ->
+  g_store (fst (gstep st i)) = g_store st /\ g_holders (fst (gstep st i)) = g_holders st.
+Proof.
+  intros Hinv [[Hcur Hg]|[rsp Hcur]].
+  - destruct (get_fetch_step _ _ _ Hcur Hg) as [th [r0 [rest [_ [_ E]]]]]. rewrite E. split; reflexivity.
+  - destruct (cur_req_read_inv _ _ _ _ Hcur) as [th [rest [Hth [Htodo Hprog]]]].
+    rewrite (gstep_read _ _ _ _ _ _ Hth Htodo Hprog). cbn [fst g_store g_holders]. split; [reflexivity|].
+    apply release_absent. eapply not_holding_unless_hold; eauto. intros cap. congruence.
+Qed.
+
+Lemma grun_other_threads mid i : forall st, Forall (fun j => j <> i) mid ->
+  nth_error (g_threads (fst (grun st mid))) i = nth_error (g_threads st) i.
+Proof.
+  induction mid as [|j rest IH]; intros st H; [reflexivity|]. inversion H as [|x y Hj Hr]; subst.
+  rewrite grun_cons. cbn [fst]. rewrite IH by exact Hr. apply gstep_other_threads. auto.
+Qed.
+
+(* get_answers_its_fetch_state: the GET at the head of thread i is fetched in state st; whatever
+   the other threads do afterwards (any schedule mid of their steps: writers may overwrite or delete
+   the object), the thread stays parked holding the response computed in the store of the FETCH,
+   and its next step answers exactly that response and changes nothing: generation,
+   metageneration, metadata and content of the answer belong together at one instant *)
+Theorem get_answers_its_fetch_state st i r mid : cur_req st i = Some (r, GNew) -> is_get r = true ->
+  Forall (fun j => j <> i) mid ->
+  let rsp := snd (handle (g_store st) r) in
+  let st1 := fst (gstep st i) in
+  let st2 := fst (grun st1 mid) in
+  snd (gstep st i) = OAt /\ g_store st1 = g_store st /\ g_holders st1 = g_holders st
+  /\ step_effect st i = Some (EHandle r)
+  /\ cur_req st2 i = Some (r, GRead rsp)
+  /\ snd (gstep st2 i) = ODone rsp
+  /\ g_store (fst (gstep st2 i)) = g_store st2.
+Proof.
+  intros Hcur Hg Hmid rsp st1 st2.
+  destruct (get_fetch_step _ _ _ Hcur Hg) as [th [r0 [rest [Hth [Htodo E]]]]].
+  assert (He : step_effect st i = Some (EHandle r)).
+  { destruct (cur_req_new_inv _ _ _ Hcur) as [th' [r0' [rest' [Hth' [Htodo' [Hprog' ->]]]]]].
+    apply (step_effect_fetch st i th' r0' rest' Hth' Htodo' Hprog'); [apply is_get_no_key; exact Hg|exact Hg]. }
+  assert (H2 : nth_error (g_threads st2) i = Some (mkGThread (r :: rest) (GRead rsp))).
+  { unfold st2. rewrite grun_other_threads by exact Hmid. unfold st1. rewrite E. cbn [fst g_threads].
+    apply (nth_error_upd_same _ _ _ _ Hth). }
+  unfold st1. rewrite E. cbn [fst snd g_store g_holders]. repeat (split; [reflexivity|]). split; [exact He|].
+  split; [unfold cur_req; fold st1 in H2; rewrite H2; reflexivity|].
+  rewrite (gstep_read st2 i _ r rest rsp H2 eq_refl eq_refl). split; reflexivity.
+Qed.
+
+(* the same for ALL schedules (the steps of thread i included): every answer ever given to this
+   GET is the response computed in the store of its fetch *)
+Theorem get_answer_unique st i r sched rsp' : cur_req st i = Some (r, GNew) -> is_get r = true ->
+  In (op_of st i, rsp') (ganswers_t st (i :: sched)) -> rsp' = snd (handle (g_store st) r).
+Proof.
+  intros Hcur Hg H. destruct (get_fetch_step _ _ _ Hcur Hg) as [th [r0 [rest [Hth [Htodo E]]]]].
+  cbn [ganswers_t] in H. rewrite E in H. cbn [fst snd app] in H.
+  eapply (reading_answer_unique sched _ i (todo_len st i)); [|exact H].
+  exists (mkGThread (r :: rest) (GRead (snd (handle (g_store st) r)))). cbn [fst snd g_threads gt_prog gt_todo].
+  split; [apply (nth_error_upd_same _ _ _ _ Hth)|]. split; [reflexivity|]. unfold todo_len. rewrite Hth, Htodo. reflexivity.
 Qed.
 
 (* file_read_mixture_refuted (documented only): the FILE store's Add is three separate steps
@@ -2021,6 +2604,41 @@ Definition c07_dup (d : bytes) : req := RUploadMedia c07_b c07_n [116]%N d (cp_l
 Definition c07_patch : req :=
   RPatch c07_b c07_n (mkPatch false (Some [120]%N) None None None None)
          (mkCP (PRaw []) (PRaw []) (PRaw (print_int 1)) (PRaw [])).
+
+(* non-vacuity of get_answers_its_fetch_state: two readers (media, metadata) fetch object (b, n) of
+   c07_s1 (content [1], generation c07_g); a writer then overwrites the object completely (yield,
+   commit: content [2], a new generation); the readers answer afterwards — with the OLD object,
+   every field of it, exactly the responses computed in c07_s1, while the store holds the new one *)
+Lemma get_answers_old_object :
+  let st := init_g c07_s1 [[RGetMedia c07_b c07_n]; [c07_up [2]%N]; [RGetMeta c07_b c07_n]] in
+  let out := grun st [0; 2; 1; 1; 0; 2]%nat in
+  map otag (snd out) = [1; 1; 1; 200; 200; 200]
+  /\ nth 4 (snd out) OIdle = ODone (mkResp 200 (BMedia [1]%N [116]%N c07_g 1))
+  /\ nth 5 (snd out) OIdle = ODone (mkResp 200 (BMeta (mkView c07_b c07_n 1 c07_g 1 [116]%N 1 [])))
+  /\ snd (handle c07_s1 (RGetMedia c07_b c07_n)) = mkResp 200 (BMedia [1]%N [116]%N c07_g 1)
+  /\ snd (handle c07_s1 (RGetMeta c07_b c07_n)) = mkResp 200 (BMeta (mkView c07_b c07_n 1 c07_g 1 [116]%N 1 []))
+  /\ find_obj (g_store (fst out)) c07_b c07_n = Some (mkObj [2]%N [116]%N (c07_g + 1) 1 true [])
+  /\ map fst (gcommits_t st [0; 2; 1; 1; 0; 2]%nat) = [(0, 1); (2, 1); (1, 1)]%nat
+  /\ map fst (ganswers_t st [0; 2; 1; 1; 0; 2]%nat) = [(1, 1); (0, 1); (2, 1)]%nat.
+Proof. cbn zeta. repeat split; vm_compute; reflexivity. Qed.
+
+(* the guard no_reads of the ..._from_partial theorems is needed: a thread parked in GRead answers
+   with the response it holds, whatever its request *)
+Lemma exactly_one_conditional_writer_wins_from_refuted_parked_reader :
+  let st := mkGState c07_s1 [] [mkGThread [c07_cup [2]%N] (GRead (err 404))] in
+  c07_n <> [] /\ 0 < c07_g <= int64_max
+  /\ all_reqs (gen_upload c07_b c07_n c07_g) st /\ has_gen c07_b c07_n c07_g (g_store st)
+  /\ all_done (fst (grun st [0%nat])) /\ pending st = 1%nat
+  /\ map r_status (done_resps (snd (grun st [0%nat]))) = [404]
+  /\ ~ no_reads st.
+Proof.
+  cbn zeta. split; [discriminate|]. split; [vm_compute; split; [reflexivity|discriminate]|]. split.
+  { intros th [<-|[]]. constructor; [|constructor]. eexists _, _. reflexivity. }
+  split; [eexists; split; [vm_compute; reflexivity|]; split; [reflexivity|vm_compute; discriminate]|].
+  split; [intros th Hin; vm_compute in Hin; destruct Hin as [<-|[]]; reflexivity|].
+  split; [reflexivity|]. split; [vm_compute; reflexivity|].
+  intros H. eapply (H _ (or_introl eq_refl)). reflexivity.
+Qed.
 
 (* ================================================================== *)
 (* 8. Item 4 with SYMBOLIC preconditions ("the generation I last saw"),  *)
@@ -2065,7 +2683,9 @@ Section Symbolic.
     destruct (gstep_spec_ok st j) as [Hid|th r0 rest k j' Hn Htodo Hprog Hk Hearly Hho Hji
                                          |th r0 rest k Hn Htodo Hprog Hk Hearly Hho Hry
                                          |th r0 rest Hn Htodo Hprog Hat
-                                         |th r rest cap Hn Htodo Hprog];
+                                         |th r rest cap Hn Htodo Hprog
+                  |th r0 rest Hn Htodo Hprog Hk Hget
+                  |th r rest rsp Hn Htodo Hprog];
       try (exfalso; eapply Hnd; reflexivity).
     - (* idle *)
       split; [exact Hinv|]. split; [exact Hgen|]. split; [exact Hlen|].
@@ -2092,6 +2712,9 @@ Section Symbolic.
       + rewrite nth_error_upd_other in Hi by exact Hne. destruct (Hth i th' Hi) as [r [Ht Hr]]. exists r.
         split; [exact Ht|]. destruct Hr as [[Hs [Hp Hns]]|Hl]; [left|right; exact Hl].
         repeat split; auto. intros [E|H]; [congruence|contradiction].
+    - (* a fetch: impossible, an upload is not a GET *)
+      exfalso. destruct (Hth j th Hn) as [r [Ht Hr]]. rewrite Htodo in Ht. injection Ht as -> ->.
+      destruct Hr as [[[ct [d ->]] _]|[ct [d ->]]]; cbn in Hget; discriminate.
   Qed.
 
   Lemma sym_inv_weaken st (P Q : nat -> Prop) : (forall i, Q i -> P i) -> sym_inv st P -> sym_inv st Q.
@@ -2141,7 +2764,10 @@ Proof.
     exfalso. apply Hns. left. apply Hpre. rewrite <- Hlen. apply nth_error_Some. congruence. }
   rewrite (grun_app st pre st post eq_refl) in *. cbn [fst snd] in *. fold st1 in Hdone |- *.
   rewrite done_resps_app, Hnd. cbn [app].
-  rewrite (exactly_one_conditional_writer_wins_from st1 post b n g Hn Hg Hall Hgen1 Hdone).
+  assert (Hnr1 : no_reads st1).
+  { apply no_reads_grun; [|apply no_reads_init]. apply all_reqs_init. apply Forall_forall. intros rs Hin.
+    apply in_map_iff in Hin. destruct Hin as [cd [<- _]]. constructor; [reflexivity|constructor]. }
+  rewrite (exactly_one_conditional_writer_wins_from_partial st1 post b n g Hn Hg Hall Hnr1 Hgen1 Hdone).
   assert (Hp : pending st1 = length payloads).
   { pose proof (pending_grun pre st) as Hp. fold st1 in Hp.
     rewrite Hnd in Hp. cbn [length] in Hp. rewrite Nat.add_0_r in Hp. rewrite <- Hp. unfold st.
@@ -2192,7 +2818,9 @@ Proof.
   destruct Hs as [Hid|th r0 rest k j' Hn Htodo Hprog Hk Hearly Hho Hji
                   |th r0 rest k Hn Htodo Hprog Hk Hearly Hho Hry
                   |th r0 rest Hn Htodo Hprog Hat
-                  |th r rest cap Hn Htodo Hprog]; [exact Hinv|..].
+                  |th r rest cap Hn Htodo Hprog
+                  |th r0 rest Hn Htodo Hprog Hk Hget
+                  |th r rest rsp Hn Htodo Hprog]; [exact Hinv|..].
   - apply (Hupd th _ _ Hn). intros served orig H1 H2. rewrite Htodo in H2. destruct orig as [|q t]; [destruct H2|].
     destruct H2 as [-> [Hf _]]. exists served, (q :: rest). split; [exact H1|]. cbn. split; [reflexivity|].
     destruct (frozen_again (g_store st) q r0 Hf) as [s' E]. split; [right; eauto|intros _; eauto].
@@ -2203,6 +2831,14 @@ Proof.
     destruct H2 as [-> _]. exists (served ++ [q]), rest. split; [rewrite <- app_assoc; exact H1|].
     cbn. destruct rest; [exact I|]. split; [reflexivity|]. split; [left; reflexivity|]. intros H. congruence.
   - apply (Hupd th _ _ Hn). intros served orig H1 H2. rewrite Htodo in H2. destruct orig as [|q t]; [destruct H2|].
+    destruct H2 as [-> _]. exists (served ++ [q]), rest. split; [rewrite <- app_assoc; exact H1|].
+    cbn. destruct rest; [exact I|]. split; [reflexivity|]. split; [left; reflexivity|]. intros H. congruence.
+  - (* the fetch of a GET: like the step to the yield *)
+    apply (Hupd th _ _ Hn). intros served orig H1 H2. rewrite Htodo in H2. destruct orig as [|q t]; [destruct H2|].
+    destruct H2 as [-> [Hf _]]. exists served, (q :: rest). split; [exact H1|]. cbn. split; [reflexivity|].
+    destruct (frozen_again (g_store st) q r0 Hf) as [s' E]. split; [right; eauto|intros _; eauto].
+  - (* the answer of a GET: like a commit *)
+    apply (Hupd th _ _ Hn). intros served orig H1 H2. rewrite Htodo in H2. destruct orig as [|q t]; [destruct H2|].
     destruct H2 as [-> _]. exists (served ++ [q]), rest. split; [rewrite <- app_assoc; exact H1|].
     cbn. destruct rest; [exact I|]. split; [reflexivity|]. split; [left; reflexivity|]. intros H. congruence.
 Qed.
@@ -2226,6 +2862,7 @@ Proof.
     destruct H2 as [-> [Hf Hh]]. injection E as <- <-.
     destruct (gt_prog th) eqn:Ep.
     + destruct (frozen_again (g_store st) r0 h Hf) as [s' Es]. exists served, r0, t, s'. auto.
+    + destruct (Hh ltac:(discriminate)) as [s' ->]. exists served, r0, t, s'. auto.
     + destruct (Hh ltac:(discriminate)) as [s' ->]. exists served, r0, t, s'. auto.
   - eapply IH; [|exact Hin]. eapply origin_inv_step; eauto using gstep_spec_ok.
 Qed.
